@@ -37,5 +37,10 @@ Example C16_wf_examples_more :
    opt_map wf_schema pool_synthetic, opt_map wf_schema pool_decoy, opt_map wf_schema pool_lonely)
   = (Some true, Some true, Some true, Some true, Some true, Some true).
 Proof. vm_compute. reflexivity. Qed.
+(* the schema whose names are prefixes of one another, and the one that declares the meta fields *)
+Example C16_wf_examples_names :
+  (opt_map wf_schema pool_prefixes, opt_map wf_schema pool_introspective) = (Some true, Some true).
+Proof. vm_compute. reflexivity. Qed.
+Print Assumptions C16_wf_examples_names.
 Print Assumptions C16_wf_examples_more.
 Print Assumptions C16_wf_examples.
